@@ -478,7 +478,7 @@ std::vector<Scenario> scenarios(bool thorough) {
       v.push_back({vf::fmt("comm: cat-like echo of %zu bytes, %s", pl, d), API_COMM, true, pl, pl == 0 ? std::vector<Step>{{ST_RALL, 0}, {ST_W1, 10}, {ST_X, 0}} : big ? std::vector<Step>{{ST_R, 65536}, {ST_W1, 65536}, {ST_R, 65536}, {ST_W1, 65536}, {ST_RALL, 0}, {ST_W1, 70000}, {ST_X, 0}} : std::vector<Step>{{ST_RALL, 0}, {ST_W1, (int64_t)pl}, {ST_X, 0}}, false, dl, big ? 1 : 2, big ? 2 : 3, true, 0});
     }
     v.push_back({vf::fmt("comm: read all, write 3000, write 3000, exit, %s", d), API_COMM, true, 10, {{ST_RALL, 0}, {ST_W1, 3000}, {ST_W1, 3000}, {ST_X, 0}}, false, dl, 2, 3, true, 0});
-    v.push_back({vf::fmt("comm: write 100000 then exit 2, %s", d), API_COMM, true, 0, {{ST_W1, 100000}, {ST_X, 2}}, false, dl, 2, 3, false, W(2)});
+    v.push_back({vf::fmt("comm: write 100000 then exit 2, %s", d), API_COMM, true, 0, {{ST_W1, 100000}, {ST_X, 2}}, false, dl, 1, 2, false, W(2)});
     v.push_back({vf::fmt("comm: child exits at once, %s", d), API_COMM, true, 5, {{ST_X, 0}}, false, dl, 3, 4, false, 0});
     v.push_back({vf::fmt("comm: child closes stdout early then reads, %s", d), API_COMM, true, 5000, {{ST_W1, 10}, {ST_C, 1}, {ST_RALL, 0}, {ST_X, 0}}, false, dl, 2, 3, true, 0});
   }
@@ -504,6 +504,7 @@ VF_SECTION(schedules, 16, 16, 300) {
     r.states += st.executions;
     r.transitions += st.choice_points;
     r.counters["executions"] += st.executions;
+    r.counters["executions: " + sc.name] = st.executions;
     if (!st.complete && st.failure.empty()) { r.exhaustive = false; r.ok("execution-cap-hit"); }
     r.nontriv();
     if (!st.failure.empty()) {
